@@ -162,15 +162,37 @@ def runPasses : List (Nat × (Nat → Int)) → List Nat → Option (List Nat)
     | none => none
     | some ids' => runPasses rest ids'
 
-/-- the digits of a timestamp as `sortRadix` uses them, least significant first:
-`sec*1000+ms` (60000 buckets), `min` (60), `hour` (24), `day-1` (31), `month-1` (12), `year-1970` (100). -/
-def radixBuckets : List Nat := [60000, 60, 24, 31, 12, 100]
+/-- the bucket counts of the five fixed passes, least significant first: `sec*1000+ms` (60000 buckets),
+`min` (60), `hour` (24), `day-1` (31), `month-1` (12). The sixth digit of a timestamp is its `year`. -/
+def radixBuckets : List Nat := [60000, 60, 24, 31, 12]
+
+/-- Python `min(iterable, default=d)` -/
+def minD : List Int → Int → Int
+  | [], d => d
+  | x :: xs, _ => xs.foldl min x
+
+/-- Python `max(iterable, default=d)` -/
+def maxD : List Int → Int → Int
+  | [], d => d
+  | x :: xs, _ => xs.foldl max x
+
+/-- `self.getObs(id).timestamp.year` -/
+def yearDigit (digits : Nat → List Int) (id : Nat) : Int := (digits id).getD 5 0
+
+/-- the last pass (after fix b323645): `ymin = min(years, default=0)`, `ymax = max(years, default=-1)`,
+`ymax - ymin + 1` buckets (none for the empty track), key `year - ymin`. -/
+def yearPass (digits : Nat → List Int) (n : Nat) : Nat × (Nat → Int) :=
+  let years := (List.range n).map (yearDigit digits)
+  let ymin := minD years 0
+  let ymax := maxD years (-1)
+  ((ymax - ymin + 1).toNat, fun id => yearDigit digits id - ymin)
 
 /-- `sortRadix()` on a list whose element at position `id` has the digits `digits id` (least
-significant first, one per entry of `radixBuckets`; a missing digit is a malformed request, read as 0
-never happens: the driver checks the length). `none` = `IndexError`. -/
+significant first: one per entry of `radixBuckets`, then the year; the driver checks that there are six).
+`none` = `IndexError`. -/
 def sortRadixIds (digits : Nat → List Int) (n : Nat) : Option (List Nat) :=
-  runPasses (radixBuckets.zipIdx.map (fun p => (p.1, fun id => (digits id).getD p.2 0))) (List.range n)
+  runPasses (radixBuckets.zipIdx.map (fun p => (p.1, fun id => (digits id).getD p.2 0)) ++ [yearPass digits n])
+    (List.range n)
 
 def sortRadix {α : Type} (l : List α) (digits : Nat → List Int) : Option (List α) :=
   match sortRadixIds digits l.length with
